@@ -141,14 +141,37 @@ template<> struct scalar_tag<std::int64_t>  { static const char* s() { return "6
 template<> struct scalar_tag<float>         { static const char* s() { return "32f"; } };
 template<> struct scalar_tag<double>        { static const char* s() { return "64f"; } };
 
+template<class V> struct vname_impl;
 template<class V>
-inline std::string vname() {
-    char buf[32];
-    std::snprintf(buf, sizeof buf, "vec%ux%s", unsigned(V::width), scalar_tag<typename V::scalar>::s());
-    return buf;
-}
-template<class M>
-inline std::string mname_of_vec() { return std::string(); }
+inline std::string vname() { return vname_impl<V>::get(); }
+// a scalar dressed as a width-1 "vector", so that the scalar overloads of avel/Scalar.hpp run through the same explorers
+template<class S>
+struct Sc {
+    typedef S scalar;
+    static const std::uint32_t width = 1;
+    S v;
+};
+// converts to exactly S and to nothing else, so that a scalar overload is only found when AVEL declares it
+// for this very element type (no silent promotion of uint8_t to the int32_t overload)
+template<class S>
+struct Exact {
+    S v;
+    template<class T, class = typename std::enable_if<std::is_same<T, S>::value>::type>
+    operator T() const { return v; }
+};
+template<class S> inline Exact<S> un(Sc<S> x) { Exact<S> e = {x.v}; return e; }
+template<class T, std::uint32_t N> inline avel::Vector<T, N> un(avel::Vector<T, N> v) { return v; }
+
+template<class V> struct vname_impl {
+    static std::string get() {
+        char buf[32];
+        std::snprintf(buf, sizeof buf, "vec%ux%s", unsigned(V::width), scalar_tag<typename V::scalar>::s());
+        return buf;
+    }
+};
+template<class S> struct vname_impl<Sc<S> > {
+    static std::string get() { return std::string("scalar") + scalar_tag<S>::s(); }
+};
 
 template<class S>
 inline std::string sname() { return std::string("scalar") + scalar_tag<S>::s(); }
@@ -506,10 +529,19 @@ inline void for_each_int_type() {
     for_each_width<F, part_u>();
     for_each_width<F, part_i>();
 }
+template<template<class> class F>
+inline void for_each_int_scalar() {
+    F<Sc<part_u> >::run();
+    F<Sc<part_i> >::run();
+}
 #else
 template<template<class> class F>
 inline void for_each_float_type() {
     for_each_width<F, part_f>();
+}
+template<template<class> class F>
+inline void for_each_float_scalar() {
+    F<Sc<part_f> >::run();
 }
 #endif
 }  // namespace vx
